@@ -1,6 +1,6 @@
 (* Observation helpers on runs of the faithful model M_py (Model/PyM.v), used by the refutation witnesses. *)
 From MX Require Import Spec.Particle Model.PyM.
-Definition dline := mkLine None [] [] None 0.
+Definition dline := mkLine None [] [] None 0 [].
 Definition last_line (ls:list line) : line := last ls dline.
 Definition ord_names (ln:line) : list positive := map (fun e => assocp e (l_unordered ln)) (l_ordered ln).
 Definition outcomes (ls:list line) : list (option exn) := map l_exn ls.
